@@ -60,7 +60,11 @@ pub(super) struct JsonTokenizer<'a> {
     json: &'a [u8],
     lookahead: Option<char>,
     skip_whitespaces: bool,
+    nesting: usize,
 }
+
+// Deepest container nesting accepted; the default loader's JSON parser has a limit of the same order
+const MAX_NESTING: usize = 128;
 
 impl<'a> JsonTokenizer<'a> {
     pub(super) fn new_from_str(s: &'a str) -> JsonTokenizer<'a> {
@@ -68,7 +72,24 @@ impl<'a> JsonTokenizer<'a> {
             json: s.as_bytes(),
             lookahead: None,
             skip_whitespaces: true,
+            nesting: 0,
         }
+    }
+
+    // Entering / leaving a nested container: refusing beyond MAX_NESTING keeps the recursive loader off the end of the stack
+    pub(super) fn enter_nested(&mut self) -> io::Result<()> {
+        if self.nesting >= MAX_NESTING {
+            return Err(io::Error::new(
+                io::ErrorKind::InvalidData,
+                "Containers are nested too deeply",
+            ));
+        }
+        self.nesting += 1;
+        Ok(())
+    }
+
+    pub(super) fn leave_nested(&mut self) {
+        self.nesting = self.nesting.saturating_sub(1);
     }
 
     pub(super) fn read(&mut self) -> io::Result<char> {
